@@ -1,12 +1,24 @@
 //go:build verif
 
-// C07 stress stream: the REAL rule repository under concurrent writers
-// (Add/Update/DeleteRuleSet, mostly different sources) and readers (FindRule),
-// per-operation results recorded with logical invocation/response stamps and
-// checked for linearizability against the sequential repository machine
-// (coq/C07/Model.v: repo_apply; mirrored below for the witness search only —
-// the witness is re-validated inside Coq by Run/Eval_C07.v).
-// Built with -race by the runner: a data race fails the run.
+// C07 stress stream: the REAL rule repository, fed through the REAL rule-set
+// processor (OnCreated / OnUpdated / OnDeleted) with rules whose routes and
+// matchers are the real routeImpl / compositeMatcher objects, under concurrent
+// writers (mostly different sources) and readers (FindRule).  Per-operation
+// results are recorded with logical invocation / response stamps.
+//
+// The property observed is ATOMICITY: the concurrent history must be explained
+// by SOME sequential execution of the same operations ON THE REAL CODE (a fresh
+// repository, operations one after the other) that respects real time.  The
+// driver searches such an order (Wing & Gong, the real repository as oracle,
+// states snapshotted with Clone), replays it on a brand-new repository and hands
+// both result lists to Coq (Run/Eval_C07.v), which re-validates the order.
+// Independently, for plans with literal paths only, Coq compares the results
+// with the sequential repository machine repo_apply (correspondence).
+//
+// Built with -race by the runner: a data race fails the run.  A second test,
+// TestVerifC07Clone, checks that Tree.Clone shares no node and no non-empty
+// backing array with its source, and that mutating the clone leaves every
+// lookup on the source unchanged (wildcards and catch-alls included).
 package rules
 
 import (
@@ -16,6 +28,7 @@ import (
 	"os"
 	"reflect"
 	"runtime"
+	"slices"
 	"sort"
 	"strings"
 	"sync"
@@ -24,21 +37,37 @@ import (
 	"time"
 
 	"github.com/dadrus/heimdall/internal/heimdall"
+	"github.com/dadrus/heimdall/internal/rules/config"
 	"github.com/dadrus/heimdall/internal/rules/rule"
+	"github.com/dadrus/heimdall/internal/x/radixtree"
 	"github.com/dadrus/heimdall/internal/zzverif/vf"
 )
 
 // ---------------------------------------------------------------- inputs
 
-var c07Pool = []string{
+// path expressions of rules: 0..9 literal (shared prefixes), 10.. wildcards / catch-alls
+var c07Exprs = []string{
 	"/a", "/a/b", "/a/c", "/ab", "/b", "/b/x", "/b/xy", "/c/d/e", "/c/d/f", "/d",
+	"/b/:id", "/b/:id/y", "/a/:x", "/c/*rest", "/:top", "/d/*any", "/c/:k/e",
 }
+
+const c07NLit = 10
+
+// request paths: 0..9 = the literal expressions, then paths only wildcards / catch-alls (or nothing) match
+var c07Reqs = []string{
+	"/a", "/a/b", "/a/c", "/ab", "/b", "/b/x", "/b/xy", "/c/d/e", "/c/d/f", "/d",
+	"/zz", "/a/b/c", "/b/7", "/b/7/y", "/a/q", "/c/q/r", "/c/q/e", "/d/e/f", "/b/x/y",
+}
+
+const c07NLitReq = 12 // requests 0..11 are usable in literal-only plans (10, 11 match nothing literal)
 
 type c07Rule struct {
 	ID    int   `json:"id"`
 	Src   int   `json:"src"`
 	Hash  int   `json:"hash"`
 	Paths []int `json:"paths"`
+	Get   bool  `json:"get,omitempty"` // methods: [GET]
+	Bt    int   `json:"bt,omitempty"`  // backtracking: 0 unset, 1 on, 2 off
 }
 
 type c07Op struct {
@@ -46,26 +75,28 @@ type c07Op struct {
 	Src   int       `json:"src,omitempty"`
 	Rules []c07Rule `json:"rules,omitempty"`
 	Path  int       `json:"path,omitempty"`
+	Post  bool      `json:"post,omitempty"`
 }
 
 type c07Plan struct {
 	Writers [][]c07Op `json:"writers"`
 	Readers [][]c07Op `json:"readers"`
 	Default bool      `json:"default_rule"`
+	Lit     bool      `json:"literal_only"`
 }
 
 type c07Rec struct {
 	Thr int    `json:"t"`
 	Op  c07Op  `json:"op"`
-	Res string `json:"res"` // ok err notfound found:<src>:<id>:<hash> default
+	Res string `json:"res"` // ok err notfound found:<src>:<id>:<hash> default panic:<..>
 	Inv int64  `json:"inv"`
 	Ret int64  `json:"ret"`
 }
 
-func c07GenRules(r *vf.Rand, src int) []c07Rule {
+func c07GenRules(r *vf.Rand, src int, lit bool) []c07Rule {
 	n := r.Range(1, 3)
 	ids := []int{1, 2, 3, 4}
-	// shuffle
+
 	for i := len(ids) - 1; i > 0; i-- {
 		j := r.Intn(i + 1)
 		ids[i], ids[j] = ids[j], ids[i]
@@ -82,26 +113,21 @@ func c07GenRules(r *vf.Rand, src int) []c07Rule {
 
 		for len(ps) < np {
 			var p int
-			if r.Chance(70) {
-				// the source's own corner of the pool
-				p = (src*3 + r.Intn(3)) % len(c07Pool)
-			} else {
-				p = r.Intn(len(c07Pool))
+
+			switch {
+			case !lit && r.Chance(45):
+				p = c07NLit + r.Intn(len(c07Exprs)-c07NLit)
+			case r.Chance(70):
+				p = (src*3 + r.Intn(3)) % c07NLit // the source's own corner of the pool
+			default:
+				p = r.Intn(c07NLit)
 			}
 
 			if used[p] && !r.Chance(8) { // rarely two rules of one set share a path
 				continue
 			}
 
-			dup := false
-
-			for _, q := range ps {
-				if q == p {
-					dup = true
-				}
-			}
-
-			if dup {
+			if slices.Contains(ps, p) {
 				continue
 			}
 
@@ -109,7 +135,13 @@ func c07GenRules(r *vf.Rand, src int) []c07Rule {
 			ps = append(ps, p)
 		}
 
-		out = append(out, c07Rule{ID: ids[i], Src: src, Hash: r.Intn(3), Paths: ps})
+		rl := c07Rule{ID: ids[i], Src: src, Hash: r.Intn(3), Paths: ps}
+		if !lit {
+			rl.Get = r.Chance(30)
+			rl.Bt = r.Intn(3)
+		}
+
+		out = append(out, rl)
 	}
 
 	return out
@@ -125,7 +157,7 @@ func c07GenPlan(r *vf.Rand, thorough bool) c07Plan {
 		maxOps = 5
 	}
 
-	p := c07Plan{Default: r.Chance(20)}
+	p := c07Plan{Default: r.Chance(20), Lit: r.Chance(40)}
 
 	for w := 0; w < nW; w++ {
 		src := w
@@ -143,10 +175,10 @@ func c07GenPlan(r *vf.Rand, thorough bool) c07Plan {
 
 			switch {
 			case !present && c < 80, present && c < 12:
-				ops = append(ops, c07Op{Kind: "add", Src: src, Rules: c07GenRules(r, src)})
+				ops = append(ops, c07Op{Kind: "add", Src: src, Rules: c07GenRules(r, src, p.Lit)})
 				present = true
 			case !present && c < 92, present && c < 70:
-				ops = append(ops, c07Op{Kind: "update", Src: src, Rules: c07GenRules(r, src)})
+				ops = append(ops, c07Op{Kind: "update", Src: src, Rules: c07GenRules(r, src, p.Lit)})
 				present = true
 			default:
 				ops = append(ops, c07Op{Kind: "delete", Src: src})
@@ -163,7 +195,11 @@ func c07GenPlan(r *vf.Rand, thorough bool) c07Plan {
 		var ops []c07Op
 
 		for i := 0; i < k; i++ {
-			ops = append(ops, c07Op{Kind: "find", Path: r.Intn(len(c07Pool))})
+			if p.Lit {
+				ops = append(ops, c07Op{Kind: "find", Path: r.Intn(c07NLitReq)})
+			} else {
+				ops = append(ops, c07Op{Kind: "find", Path: r.Intn(len(c07Reqs)), Post: r.Chance(30)})
+			}
 		}
 
 		p.Readers = append(p.Readers, ops)
@@ -174,10 +210,6 @@ func c07GenPlan(r *vf.Rand, thorough bool) c07Plan {
 
 // ---------------------------------------------------------------- the real thing
 
-type c07Match struct{}
-
-func (c07Match) Matches(_ *heimdall.Request, _, _ []string) error { return nil }
-
 type c07Ctx struct{ req *heimdall.Request }
 
 func (c *c07Ctx) Request() *heimdall.Request       { return c.req }
@@ -187,45 +219,146 @@ func (c *c07Ctx) AppContext() context.Context      { return context.Background()
 func (c *c07Ctx) SetPipelineError(_ error)         {}
 func (c *c07Ctx) Outputs() map[string]any          { return nil }
 
-func c07Real(rs []c07Rule) []rule.Rule {
-	out := make([]rule.Rule, 0, len(rs))
-
-	for _, r := range rs {
-		ri := &ruleImpl{id: fmt.Sprintf("%d", r.ID), srcID: fmt.Sprintf("%d", r.Src), hash: []byte{byte(r.Hash)}}
-		for _, p := range r.Paths {
-			ri.routes = append(ri.routes, &routeImpl{rule: ri, path: c07Pool[p], matcher: c07Match{}})
-		}
-
-		out = append(out, ri)
-	}
-
-	return out
+// c07Factory: the route / matcher part of the real rule factory (real createMethodMatcher, createHostMatcher,
+// createPathParamsMatcher, compositeMatcher, routeImpl, config.Rule.Hash); pipelines are not built (C14).
+type c07Factory struct {
+	def rule.Rule
 }
 
-func c07Exec(repo rule.Repository, op c07Op) string {
+func (f *c07Factory) HasDefaultRule() bool   { return f.def != nil }
+func (f *c07Factory) DefaultRule() rule.Rule { return f.def }
+
+func (f *c07Factory) CreateRule(_, srcID string, rc config.Rule) (rule.Rule, error) {
+	hash, err := rc.Hash()
+	if err != nil {
+		return nil, err
+	}
+
+	bt := false
+	if rc.Matcher.BacktrackingEnabled != nil {
+		bt = *rc.Matcher.BacktrackingEnabled
+	}
+
+	rul := &ruleImpl{
+		id: rc.ID, srcID: srcID, slashesHandling: config.EncodedSlashesOff, allowsBacktracking: bt,
+		backend: rc.Backend, hash: hash,
+	}
+
+	mm, err := createMethodMatcher(rc.Matcher.Methods)
+	if err != nil {
+		return nil, err
+	}
+
+	hm, err := createHostMatcher(rc.Matcher.Hosts)
+	if err != nil {
+		return nil, err
+	}
+
+	sm := schemeMatcher(rc.Matcher.Scheme)
+
+	for _, rt := range rc.Matcher.Routes {
+		ppm, err := createPathParamsMatcher(rt.PathParams, config.EncodedSlashesOff)
+		if err != nil {
+			return nil, err
+		}
+
+		rul.routes = append(rul.routes, &routeImpl{rule: rul, path: rt.Path, matcher: compositeMatcher{sm, mm, hm, ppm}})
+	}
+
+	return rul, nil
+}
+
+func c07RuleSet(src int, rs []c07Rule) *config.RuleSet {
+	set := &config.RuleSet{
+		MetaData: config.MetaData{Source: fmt.Sprintf("%d", src)},
+		Version:  config.CurrentRuleSetVersion, Name: "c07",
+	}
+
+	for _, r := range rs {
+		rc := config.Rule{
+			ID:      fmt.Sprintf("%d", r.ID),
+			Backend: &config.Backend{Host: fmt.Sprintf("v%d", r.Hash)}, // the definition version; part of the rule hash
+		}
+
+		for _, p := range r.Paths {
+			rc.Matcher.Routes = append(rc.Matcher.Routes, config.Route{Path: c07Exprs[p]})
+		}
+
+		if r.Get {
+			rc.Matcher.Methods = []string{"GET"}
+		}
+
+		if r.Bt != 0 {
+			on := r.Bt == 1
+			rc.Matcher.BacktrackingEnabled = &on
+		}
+
+		set.Rules = append(set.Rules, rc)
+	}
+
+	return set
+}
+
+// c07Sys: a repository wired as in module.go (newRepository + NewRuleSetProcessor)
+type c07Sys struct {
+	repo *repository
+	proc rule.SetProcessor
+	fac  *c07Factory
+}
+
+func c07New(def bool) *c07Sys {
+	fac := &c07Factory{}
+	if def {
+		fac.def = &ruleImpl{id: "default", srcID: "config", isDefault: true}
+	}
+
+	repo := newRepository(fac).(*repository) //nolint:forcetypeassert
+
+	return &c07Sys{repo: repo, proc: NewRuleSetProcessor(repo, fac), fac: fac}
+}
+
+// snapshot: an independent copy of the state (used by the sequential oracle only, never concurrently)
+func (s *c07Sys) snapshot() *c07Sys {
+	repo := &repository{dr: s.repo.dr, knownRules: slices.Clone(s.repo.knownRules), index: s.repo.index.Clone()}
+
+	return &c07Sys{repo: repo, proc: NewRuleSetProcessor(repo, s.fac), fac: s.fac}
+}
+
+func (s *c07Sys) exec(op c07Op) (res string) {
+	defer func() {
+		if p := recover(); p != nil {
+			res = "panic:" + strings.SplitN(fmt.Sprint(p), "\n", 2)[0]
+		}
+	}()
+
 	switch op.Kind {
 	case "add":
-		if err := repo.AddRuleSet(fmt.Sprintf("%d", op.Src), c07Real(op.Rules)); err != nil {
+		if err := s.proc.OnCreated(c07RuleSet(op.Src, op.Rules)); err != nil {
 			return "err"
 		}
 
 		return "ok"
 	case "update":
-		if err := repo.UpdateRuleSet(fmt.Sprintf("%d", op.Src), c07Real(op.Rules)); err != nil {
+		if err := s.proc.OnUpdated(c07RuleSet(op.Src, op.Rules)); err != nil {
 			return "err"
 		}
 
 		return "ok"
 	case "delete":
-		if err := repo.DeleteRuleSet(fmt.Sprintf("%d", op.Src)); err != nil {
+		if err := s.proc.OnDeleted(c07RuleSet(op.Src, nil)); err != nil {
 			return "err"
 		}
 
 		return "ok"
 	default:
-		ctx := &c07Ctx{req: &heimdall.Request{Method: "GET", URL: &heimdall.URL{URL: url.URL{Path: c07Pool[op.Path]}}}}
+		method := "GET"
+		if op.Post {
+			method = "POST"
+		}
 
-		rul, err := repo.FindRule(ctx)
+		ctx := &c07Ctx{req: &heimdall.Request{Method: method, URL: &heimdall.URL{URL: url.URL{Path: c07Reqs[op.Path]}}}}
+
+		rul, err := s.repo.FindRule(ctx)
 		if err != nil {
 			return "notfound"
 		}
@@ -239,13 +372,15 @@ func c07Exec(repo rule.Repository, op c07Op) string {
 			return "default"
 		}
 
-		return fmt.Sprintf("found:%s:%s:%d", ri.srcID, ri.id, ri.hash[0])
+		return fmt.Sprintf("found:%s:%s:%s", ri.srcID, ri.id, strings.TrimPrefix(ri.backend.Host, "v"))
 	}
 }
 
 // c07Extras: methods of the repository other than the four of rule.Repository that can be called without
 // inventing structured arguments (none, or strings / ints / bools).  If the code grows such a method, readers call
 // it concurrently so that the race detector sees it; its results are not part of the history.
+var c07ExtraPanic atomic.Value
+
 func c07Extras(repo any) []func() {
 	known := map[string]bool{"FindRule": true, "AddRuleSet": true, "UpdateRuleSet": true, "DeleteRuleSet": true}
 	v := reflect.ValueOf(repo)
@@ -274,8 +409,13 @@ func c07Extras(repo any) []func() {
 
 		if ok {
 			mv := v.Method(i)
+			name := m.Name
 			out = append(out, func() {
-				defer func() { _ = recover() }()
+				defer func() {
+					if p := recover(); p != nil {
+						c07ExtraPanic.Store(fmt.Sprintf("%s: %v", name, p))
+					}
+				}()
 
 				mv.Call(args)
 			})
@@ -287,14 +427,8 @@ func c07Extras(repo any) []func() {
 
 // c07Run executes the plan on a fresh real repository; returns the history (nil on deadlock).
 func c07Run(p c07Plan, r *vf.Rand) ([]c07Rec, bool) {
-	fac := &ruleFactory{}
-	if p.Default {
-		fac.hasDefaultRule = true
-		fac.defaultRule = &ruleImpl{id: "default", srcID: "config", isDefault: true}
-	}
-
-	repo := newRepository(fac)
-	extras := c07Extras(repo)
+	sys := c07New(p.Default)
+	extras := c07Extras(sys.repo)
 
 	var (
 		clock atomic.Int64
@@ -357,7 +491,7 @@ func c07Run(p c07Plan, r *vf.Rand) ([]c07Rec, bool) {
 				}
 
 				inv := clock.Add(1)
-				res := c07Exec(repo, op)
+				res := sys.exec(op)
 				ret := clock.Add(1)
 				local = append(local, c07Rec{Thr: ti, Op: op, Res: res, Inv: inv, Ret: ret})
 
@@ -382,15 +516,20 @@ func c07Run(p c07Plan, r *vf.Rand) ([]c07Rec, bool) {
 
 	select {
 	case <-done:
-	case <-time.After(20 * time.Second):
+	case <-time.After(45 * time.Second):
 		return nil, false
 	}
 
 	// final state, probed after everything has returned
-	for pth := range c07Pool {
+	nprobe := len(c07Reqs)
+	if p.Lit {
+		nprobe = c07NLitReq
+	}
+
+	for pth := 0; pth < nprobe; pth++ {
 		op := c07Op{Kind: "find", Path: pth}
 		inv := clock.Add(1)
-		res := c07Exec(repo, op)
+		res := sys.exec(op)
 		ret := clock.Add(1)
 		hist = append(hist, c07Rec{Thr: len(threads), Op: op, Res: res, Inv: inv, Ret: ret})
 	}
@@ -400,220 +539,31 @@ func c07Run(p c07Plan, r *vf.Rand) ([]c07Rec, bool) {
 	return hist, true
 }
 
-// ---------------------------------------------------------------- sequential model (mirror of repo_apply) for the witness search
+// ---------------------------------------------------------------- witness search: the REAL code, run sequentially, is the oracle
 
-type c07State struct {
-	known []c07Rule
-	index map[int][]c07Rule
-	def   bool
-}
-
-func (s *c07State) clone() *c07State {
-	n := &c07State{known: append([]c07Rule(nil), s.known...), index: make(map[int][]c07Rule, len(s.index)), def: s.def}
-	for k, v := range s.index {
-		n.index[k] = append([]c07Rule(nil), v...)
-	}
-
-	return n
-}
-
-func (s *c07State) key() string {
-	var sb strings.Builder
-
-	for _, r := range s.known {
-		fmt.Fprintf(&sb, "%d.%d.%d%v;", r.Src, r.ID, r.Hash, r.Paths)
-	}
-
-	sb.WriteString("|")
-
-	ks := make([]int, 0, len(s.index))
-	for k := range s.index {
-		ks = append(ks, k)
-	}
-
-	sort.Ints(ks)
-
-	for _, k := range ks {
-		fmt.Fprintf(&sb, "%d:", k)
-
-		for _, r := range s.index[k] {
-			fmt.Fprintf(&sb, "%d.%d.%d,", r.Src, r.ID, r.Hash)
-		}
-	}
-
-	return sb.String()
-}
-
-func c07Same(a, b c07Rule) bool  { return a.ID == b.ID && a.Src == b.Src }
-func c07Equal(a, b c07Rule) bool { return c07Same(a, b) && a.Hash == b.Hash }
-
-func (s *c07State) addRules(rs []c07Rule) bool {
-	for _, r := range rs {
-		for _, p := range r.Paths {
-			vs := s.index[p]
-			if len(vs) != 0 && vs[0].Src != r.Src {
-				return false
-			}
-
-			s.index[p] = append(vs, r)
-		}
-	}
-
-	return true
-}
-
-func c07Identical(a, b c07Rule) bool {
-	return c07Equal(a, b) && fmt.Sprint(a.Paths) == fmt.Sprint(b.Paths)
-}
-
-// delRules: tree.Delete(path, the very route of the rule) - exactly one value of the node goes
-// (rule objects equal in every respect are interchangeable), and it fails if there is none.
-func (s *c07State) delRules(rs []c07Rule) bool {
-	for _, r := range rs {
-		for _, p := range r.Paths {
-			vs := s.index[p]
-			at := -1
-
-			for i, v := range vs {
-				if c07Identical(v, r) {
-					at = i
-
-					break
-				}
-			}
-
-			if at < 0 {
-				return false
-			}
-
-			s.index[p] = append(append([]c07Rule(nil), vs[:at]...), vs[at+1:]...)
-		}
-	}
-
-	return true
-}
-
-func c07In(rs []c07Rule, x c07Rule) bool {
-	for _, r := range rs {
-		if c07Equal(r, x) && fmt.Sprint(r.Paths) == fmt.Sprint(x.Paths) {
-			return true
-		}
-	}
-
-	return false
-}
-
-// apply returns the next state (nil when unchanged) and the result
-func (s *c07State) apply(op c07Op) (*c07State, string) {
-	switch op.Kind {
-	case "add":
-		n := s.clone()
-		if !n.addRules(op.Rules) {
-			return s, "err"
-		}
-
-		n.known = append(n.known, op.Rules...)
-
-		return n, "ok"
-	case "update", "delete":
-		var applicable, toAdd, toDel []c07Rule
-
-		for _, r := range s.known {
-			if r.Src == op.Src {
-				applicable = append(applicable, r)
-			}
-		}
-
-		if op.Kind == "delete" {
-			toDel = applicable
-		} else {
-			for _, nr := range op.Rules {
-				isNew, changed := true, false
-
-				for _, e := range applicable {
-					if c07Same(e, nr) {
-						isNew = false
-
-						if !c07Equal(e, nr) {
-							changed = true
-						}
-					}
-				}
-
-				if isNew || changed {
-					toAdd = append(toAdd, nr)
-				}
-			}
-
-			for _, e := range applicable {
-				gone, changed := true, false
-
-				for _, nr := range op.Rules {
-					if c07Same(nr, e) {
-						gone = false
-
-						if !c07Equal(nr, e) {
-							changed = true
-						}
-					}
-				}
-
-				if gone || changed {
-					toDel = append(toDel, e)
-				}
-			}
-		}
-
-		n := s.clone()
-		if !n.delRules(toDel) || !n.addRules(toAdd) {
-			return s, "err"
-		}
-
-		var known []c07Rule
-
-		for _, r := range n.known {
-			if !c07In(toDel, r) {
-				known = append(known, r)
-			}
-		}
-
-		n.known = append(known, toAdd...)
-
-		return n, "ok"
-	default:
-		vs := s.index[op.Path]
-		if len(vs) == 0 {
-			if s.def {
-				return s, "default"
-			}
-
-			return s, "notfound"
-		}
-
-		return s, fmt.Sprintf("found:%d:%d:%d", vs[0].Src, vs[0].ID, vs[0].Hash)
-	}
-}
-
-// c07Linearize: Wing&Gong search with memoisation; returns a linearization order (indices into hist) or nil.
+// c07Linearize: Wing & Gong search with memoisation.  A state of the search is a snapshot of a real repository
+// on which the operations linearized so far have been executed one after the other.  Returns an order
+// (indices into hist) or nil.  Memo key: set of linearized operations + order of the successful changes among
+// them (lookups and rejected changes do not change the state of the repository).
 func c07Linearize(hist []c07Rec, def bool) []int {
 	n := len(hist)
 	if n > 62 {
-		return nil
+		panic("c07: plan too large for the search")
 	}
 
 	seen := map[string]bool{}
 
 	var (
 		order []int
-		rec   func(done uint64, st *c07State) bool
+		rec   func(done uint64, st *c07Sys, changes string) bool
 	)
 
-	rec = func(done uint64, st *c07State) bool {
+	rec = func(done uint64, st *c07Sys, changes string) bool {
 		if done == (uint64(1)<<uint(n))-1 {
 			return true
 		}
 
-		k := fmt.Sprintf("%x/%s", done, st.key())
+		k := fmt.Sprintf("%x/%s", done, changes)
 		if seen[k] {
 			return false
 		}
@@ -633,14 +583,25 @@ func c07Linearize(hist []c07Rec, def bool) []int {
 				continue
 			}
 
-			nst, res := st.apply(hist[i].Op)
+			nst, nch := st, changes
+			if hist[i].Op.Kind != "find" {
+				nst = st.snapshot()
+			}
+
+			res := nst.exec(hist[i].Op)
 			if res != hist[i].Res {
 				continue
 			}
 
+			if hist[i].Op.Kind != "find" && res == "ok" {
+				nch = fmt.Sprintf("%s,%d", changes, i)
+			} else {
+				nst = st // a rejected change leaves the repository as it was (C06); keep the untouched snapshot
+			}
+
 			order = append(order, i)
 
-			if rec(done|1<<uint(i), nst) {
+			if rec(done|1<<uint(i), nst, nch) {
 				return true
 			}
 
@@ -650,11 +611,23 @@ func c07Linearize(hist []c07Rec, def bool) []int {
 		return false
 	}
 
-	if rec(0, &c07State{index: map[int][]c07Rule{}, def: def}) {
+	if rec(0, c07New(def), "") {
 		return order
 	}
 
 	return nil
+}
+
+// c07Replay: the operations in the given order on a brand-new repository, one after the other
+func c07Replay(hist []c07Rec, order []int, def bool) []string {
+	sys := c07New(def)
+	out := make([]string, 0, len(order))
+
+	for _, k := range order {
+		out = append(out, sys.exec(hist[k].Op))
+	}
+
+	return out
 }
 
 // ---------------------------------------------------------------- rendering
@@ -692,6 +665,8 @@ func c07CoqRes(res string) string {
 		fmt.Sscanf(strings.ReplaceAll(res[6:], ":", " "), "%d %d %d", &a, &b, &c)
 
 		return fmt.Sprintf("(RFound %d %d %d)", a, b, c)
+	case strings.HasPrefix(res, "panic:"):
+		return "RPanic"
 	default:
 		return "RForeign"
 	}
@@ -739,6 +714,7 @@ func c07Corpus() []c07Plan {
 
 	return []c07Plan{
 		{ // two providers claim the same path at the same time: exactly one wins, readers see none or the winner
+			Lit: true,
 			Writers: [][]c07Op{
 				{{Kind: "add", Src: 0, Rules: rs(0, c07Rule{ID: 1, Hash: 1, Paths: []int{0, 1}})}},
 				{{Kind: "add", Src: 1, Rules: rs(1, c07Rule{ID: 1, Hash: 2, Paths: []int{1, 2}})}},
@@ -746,6 +722,7 @@ func c07Corpus() []c07Plan {
 			Readers: [][]c07Op{find(1, 0, 2, 1), find(2, 1, 0)},
 		},
 		{ // a multi-rule update must appear all at once: after /a shows the new version, /a/b and /a/c do too
+			Lit: true,
 			Writers: [][]c07Op{
 				{
 					{Kind: "add", Src: 0, Rules: rs(0, c07Rule{ID: 1, Hash: 0, Paths: []int{0}}, c07Rule{ID: 2, Hash: 0, Paths: []int{1}}, c07Rule{ID: 3, Hash: 0, Paths: []int{2}})},
@@ -757,6 +734,7 @@ func c07Corpus() []c07Plan {
 			Readers: [][]c07Op{find(0, 1, 2, 0, 1, 2), find(2, 1, 0, 2, 1, 0), find(4, 0, 4, 2)},
 		},
 		{ // independent providers: none of the changes may be lost
+			Lit: true,
 			Writers: [][]c07Op{
 				{{Kind: "add", Src: 0, Rules: rs(0, c07Rule{ID: 1, Hash: 0, Paths: []int{0}})}, {Kind: "update", Src: 0, Rules: rs(0, c07Rule{ID: 1, Hash: 1, Paths: []int{0}}, c07Rule{ID: 2, Hash: 0, Paths: []int{3}})}},
 				{{Kind: "add", Src: 1, Rules: rs(1, c07Rule{ID: 1, Hash: 0, Paths: []int{4}})}, {Kind: "update", Src: 1, Rules: rs(1, c07Rule{ID: 1, Hash: 1, Paths: []int{4}}, c07Rule{ID: 2, Hash: 0, Paths: []int{5}})}},
@@ -765,7 +743,7 @@ func c07Corpus() []c07Plan {
 			Readers: [][]c07Op{find(0, 4, 7, 3, 5, 8)},
 		},
 		{ // delete racing with lookups and a re-add, with a default rule
-			Default: true,
+			Default: true, Lit: true,
 			Writers: [][]c07Op{
 				{
 					{Kind: "add", Src: 0, Rules: rs(0, c07Rule{ID: 1, Hash: 0, Paths: []int{5, 6}})},
@@ -775,6 +753,22 @@ func c07Corpus() []c07Plan {
 				{{Kind: "update", Src: 1, Rules: rs(1, c07Rule{ID: 1, Hash: 0, Paths: []int{5}})}, {Kind: "delete", Src: 1}},
 			},
 			Readers: [][]c07Op{find(5, 6, 5, 6, 5), find(6, 5, 6)},
+		},
+		{ // wildcard and catch-all subtrees are rebuilt and torn down while requests hit them (shallow-clone witness)
+			Writers: [][]c07Op{
+				{
+					{Kind: "add", Src: 0, Rules: rs(0, c07Rule{ID: 1, Hash: 0, Paths: []int{10, 11}}, c07Rule{ID: 2, Hash: 0, Paths: []int{13}})},
+					{Kind: "update", Src: 0, Rules: rs(0, c07Rule{ID: 1, Hash: 1, Paths: []int{10}}, c07Rule{ID: 3, Hash: 0, Paths: []int{16}})},
+					{Kind: "delete", Src: 0},
+					{Kind: "add", Src: 0, Rules: rs(0, c07Rule{ID: 1, Hash: 2, Paths: []int{11, 13}})},
+				},
+				{
+					{Kind: "add", Src: 1, Rules: rs(1, c07Rule{ID: 1, Hash: 0, Paths: []int{12, 15}})},
+					{Kind: "update", Src: 1, Rules: rs(1, c07Rule{ID: 1, Hash: 1, Paths: []int{12}}, c07Rule{ID: 2, Hash: 0, Paths: []int{14}})},
+					{Kind: "delete", Src: 1},
+				},
+			},
+			Readers: [][]c07Op{find(12, 13, 15, 16, 12, 13), find(14, 17, 18, 12, 10, 15), find(13, 12, 16, 14)},
 		},
 	}
 }
@@ -829,10 +823,17 @@ func TestVerifC07(t *testing.T) {
 		if !live {
 			buf := make([]byte, 1<<16)
 			buf = buf[:runtime.Stack(buf, true)]
-			w.Put(vf.Obs{I: i, Stream: "stress", In: plan, Out: "DEADLOCK", Coq: "(mk_case false [])", Nontrivial: true,
+			w.Put(vf.Obs{I: i, Stream: stream, In: plan, Out: "DEADLOCK", Coq: "(mk_case false false [] [])", Nontrivial: true,
 				Tags: []string{"deadlock"}, Extra: map[string]any{"stacks": string(buf)}})
 			w.Close()
-			t.Fatalf("C07-DEADLOCK case %d: operations did not return within 20s", i)
+			t.Fatalf("C07-DEADLOCK case %d: operations did not return within 45s", i)
+		}
+
+		if p := c07ExtraPanic.Load(); p != nil {
+			w.Put(vf.Obs{I: i, Stream: stream, In: plan, Out: "PANIC " + fmt.Sprint(p), Coq: "(mk_case false false [] [])",
+				Nontrivial: true, Tags: []string{"panic"}})
+			w.Close()
+			t.Fatalf("C07-PANIC case %d: %v", i, p)
 		}
 
 		lin := order != nil
@@ -844,15 +845,24 @@ func TestVerifC07(t *testing.T) {
 			}
 		}
 
+		seq := c07Replay(hist, order, plan.Default)
 		items := make([]string, 0, len(order))
-		for _, k := range order {
+		seqItems := make([]string, 0, len(order))
+		npanic := 0
+
+		for pos, k := range order {
 			h := hist[k]
 			items = append(items, fmt.Sprintf("(hop %d %s %s %s %s)", h.Thr, c07CoqOp(h.Op), c07CoqRes(h.Res),
 				vf.CoqZ(h.Inv), vf.CoqZ(h.Ret)))
+			seqItems = append(seqItems, c07CoqRes(seq[pos]))
+
+			if strings.HasPrefix(h.Res, "panic") {
+				npanic++
+			}
 		}
 
 		rw, ww := c07Overlaps(hist)
-		nerr, nfound := 0, 0
+		nerr, nfound, nwild := 0, 0, 0
 
 		for _, h := range hist {
 			if h.Res == "err" {
@@ -861,6 +871,10 @@ func TestVerifC07(t *testing.T) {
 
 			if strings.HasPrefix(h.Res, "found") {
 				nfound++
+
+				if h.Op.Path >= c07NLit {
+					nwild++
+				}
 			}
 		}
 
@@ -882,8 +896,22 @@ func TestVerifC07(t *testing.T) {
 			tags = append(tags, "lookup-hit")
 		}
 
+		if nwild > 0 {
+			tags = append(tags, "lookup-hit:via-wildcard-or-catch-all")
+		}
+
 		if plan.Default {
 			tags = append(tags, "default-rule")
+		}
+
+		if plan.Lit {
+			tags = append(tags, "literal-only(model-compared)")
+		} else {
+			tags = append(tags, "wildcards+methods+backtracking")
+		}
+
+		if npanic > 0 {
+			tags = append(tags, "PANIC")
 		}
 
 		if !lin {
@@ -891,9 +919,176 @@ func TestVerifC07(t *testing.T) {
 		}
 
 		w.Put(vf.Obs{
-			I: i, Stream: stream, In: plan, Out: map[string]any{"history": hist, "witness": order, "linearizable": lin},
-			Coq:        fmt.Sprintf("(mk_case %s %s)", vf.CoqBool(plan.Default), vf.CoqList(items)),
+			I: i, Stream: stream, In: plan,
+			Out: map[string]any{"history": hist, "witness": order, "sequential_results": seq, "linearizable": lin},
+			Coq: fmt.Sprintf("(mk_case %s %s %s %s)", vf.CoqBool(plan.Default), vf.CoqBool(plan.Lit), vf.CoqList(items),
+				vf.CoqList(seqItems)),
 			Nontrivial: rw+ww > 0, Tags: tags,
 		})
+	}
+}
+
+// ---------------------------------------------------------------- Tree.Clone is deep
+
+// c07Walk collects the addresses of all tree nodes and of all NON-EMPTY backing arrays reachable from v.
+// (A slice of length 0 may keep the source's spare capacity: nobody reads beyond len, and only one clone of a
+// published tree is alive while the writer lock is held - covered by the skeleton discipline.)
+func c07Walk(v reflect.Value, nodes, arrays map[uintptr]string, where string, nodeType reflect.Type) {
+	switch v.Kind() { //nolint:exhaustive
+	case reflect.Ptr:
+		if v.IsNil() {
+			return
+		}
+
+		if v.Type().Elem() == nodeType {
+			if _, dup := nodes[v.Pointer()]; dup {
+				return
+			}
+
+			nodes[v.Pointer()] = where
+			c07Walk(v.Elem(), nodes, arrays, where, nodeType)
+		}
+	case reflect.Struct:
+		for i := 0; i < v.NumField(); i++ {
+			c07Walk(v.Field(i), nodes, arrays, where+"."+v.Type().Field(i).Name, nodeType)
+		}
+	case reflect.Slice:
+		if v.Len() > 0 {
+			arrays[v.Pointer()] = where
+		}
+
+		for i := 0; i < v.Len(); i++ {
+			c07Walk(v.Index(i), nodes, arrays, fmt.Sprintf("%s[%d]", where, i), nodeType)
+		}
+	}
+}
+
+func c07Shared(a, b *radixtree.Tree[rule.Route]) []string {
+	nt := reflect.TypeOf(a).Elem()
+	na, aa := map[uintptr]string{}, map[uintptr]string{}
+	nb, ab := map[uintptr]string{}, map[uintptr]string{}
+	c07Walk(reflect.ValueOf(a), na, aa, "src", nt)
+	c07Walk(reflect.ValueOf(b), nb, ab, "clone", nt)
+
+	var out []string
+
+	for p, w := range nb {
+		if w0, ok := na[p]; ok {
+			out = append(out, "node "+w+" is "+w0)
+		}
+	}
+
+	for p, w := range ab {
+		if w0, ok := aa[p]; ok {
+			out = append(out, "backing array of "+w+" is that of "+w0)
+		}
+	}
+
+	sort.Strings(out)
+
+	return out
+}
+
+func TestVerifC07Clone(t *testing.T) {
+	n := vf.N(200)
+	rnd := vf.NewRand(vf.Seed() + 77)
+	w := vf.NewWriter()
+
+	defer w.Close()
+
+	probe := func(s *c07Sys) string {
+		var sb strings.Builder
+
+		for p := range c07Reqs {
+			sb.WriteString(s.exec(c07Op{Kind: "find", Path: p}) + "|" + s.exec(c07Op{Kind: "find", Path: p, Post: true}) + ";")
+		}
+
+		return sb.String()
+	}
+
+	for i := 0; i < n; i++ {
+		r := rnd.Fork(uint64(i))
+		if !vf.Want(i) {
+			continue
+		}
+
+		sys := c07New(false)
+
+		var ops []c07Op
+
+		for k, m := 0, r.Range(2, 7); k < m; k++ {
+			src := r.Intn(3)
+
+			switch c := r.Intn(10); {
+			case c < 5:
+				ops = append(ops, c07Op{Kind: "add", Src: src, Rules: c07GenRules(r, src, false)})
+			case c < 8:
+				ops = append(ops, c07Op{Kind: "update", Src: src, Rules: c07GenRules(r, src, false)})
+			default:
+				ops = append(ops, c07Op{Kind: "delete", Src: src})
+			}
+		}
+
+		for _, op := range ops {
+			sys.exec(op)
+		}
+
+		before := probe(sys)
+		clone := sys.snapshot()
+		shared := c07Shared(sys.repo.index, clone.repo.index)
+		// behavioural: whatever is done to the clone, the source answers as before
+		var after []c07Op
+
+		for k, m := 0, r.Range(2, 6); k < m; k++ {
+			src := r.Intn(3)
+
+			switch c := r.Intn(10); {
+			case c < 4:
+				after = append(after, c07Op{Kind: "add", Src: src, Rules: c07GenRules(r, src, false)})
+			case c < 7:
+				after = append(after, c07Op{Kind: "update", Src: src, Rules: c07GenRules(r, src, false)})
+			default:
+				after = append(after, c07Op{Kind: "delete", Src: src})
+			}
+		}
+
+		for _, op := range after {
+			// directly on the clone's tree, without another copy-on-write in between
+			for _, rl := range op.Rules {
+				set := c07RuleSet(op.Src, []c07Rule{rl})
+				if rul, err := clone.fac.CreateRule("", set.Source, set.Rules[0]); err == nil {
+					_ = clone.repo.addRulesTo(clone.repo.index, []rule.Rule{rul})
+				}
+			}
+
+			if op.Kind == "delete" {
+				var mine []rule.Rule
+
+				for _, kr := range clone.repo.knownRules {
+					if kr.SrcID() == fmt.Sprintf("%d", op.Src) {
+						mine = append(mine, kr)
+					}
+				}
+
+				_ = clone.repo.removeRulesFrom(clone.repo.index, mine)
+			}
+		}
+
+		unchanged := probe(sys) == before
+		ok := len(shared) == 0 && unchanged
+		tags := []string{"clone-check"}
+
+		if !ok {
+			tags = append(tags, "SHALLOW-CLONE")
+		}
+
+		w.Put(vf.Obs{I: i, Stream: "clone", In: map[string]any{"build": ops, "mutate_clone": after},
+			Out: map[string]any{"shared": shared, "source_unchanged": unchanged, "ok": ok},
+			Coq: "tt", Nontrivial: true, Tags: tags})
+
+		if !ok {
+			w.Close()
+			t.Fatalf("C07-SHALLOW-CLONE case %d: shared=%v source_unchanged=%v", i, shared, unchanged)
+		}
 	}
 }
